@@ -354,3 +354,7 @@ impl RtpsWriterProxy {
     }
   }
 } // impl
+
+#[cfg(rustdds_verif)]
+#[path = "/verif/harness/incrate/access/rtps_writer_proxy.rs"]
+mod verif_access;
